@@ -48,7 +48,7 @@ func c18Constants(c *Ctx) {
 	r := c.R
 	want := map[string]uint64{"suiteString": 3, "encodeToCurveDomainSeparatorFront": 1, "encodeToCurveDomainSeparatorBack": 0,
 		"challengeGenerationDomainSeparatorFront": 2, "challengeGenerationDomainSeparatorBack": 0, "proofToHashDomainSeparatorFront": 3, "proofToHashDomainSeparatorBack": 0}
-	in := bitdom.New(c.P.SSA, 64)
+	in := bitdom.New(c.P.SSA, c.wordBits())
 	pk := c.P.Pkg("pkg/vrf")
 	in.Call(pk.Func("init"), nil)
 	ok := true
@@ -143,7 +143,7 @@ func c18Decoder(c *Ctx) *ssa.Function {
 	}
 	r.Check(nTab == 2 && canonFn != nil, "C18.canonical-decoder.tests", c.P.Pos(dec.Pos()), "decoder applies the y<p test and compares with both tabled encodings (%d table comparisons)", nTab)
 	// table by value
-	in := bitdom.New(c.P.SSA, 64)
+	in := bitdom.New(c.P.SSA, c.wordBits())
 	pk := c.P.Pkg("pkg/vrf")
 	in.Call(pk.Func("init"), nil)
 	okTab := false
